@@ -166,6 +166,15 @@ class Ctx:
             else:
                 d = 0
             w64(L3A + 8 * pg, d)
+        # VA 0x40000000..0x4000FFFF: three levels, "no PL0 access below here" (APTable<0>) in the LEVEL-1 table descriptor
+        # only; the level-2 table descriptor says nothing and the pages themselves allow User access (AP<1> = 1)
+        L2C, L3C = 0x8000, 0x11000
+        M.poke(cpu, L2C, bytes(0x1000))
+        M.poke(cpu, L3C, bytes(0x1000))
+        w64(L1 + 8, L2C | TABLE | (1 << 61))
+        w64(L2C + 0, L3C | TABLE)
+        for pg in range(16):
+            w64(L3C + 8 * pg, (pg << 12) | attrs(0b01) | PAGE)
         r.ttbr0 = r.ttbr0_64 = L1
         r.ttbr1 = r.ttbr1_64 = 0
         r.ttbcr.value = 1 << 31
